@@ -71,6 +71,8 @@ def run(ctx):
             dl.append('enc 3 0 0 0 0 %d %s %s %d %d' % (n, fmt([rng.randrange(2) for _ in range(n)]), fmt([0] * n), enc(mu, M), M)); meta.append(('trivial', n, M, mu, None, None, 0))
     io = vlib.run_lines(exe, dl, timeout=3600)
     mo = vlib.run_model([l.replace('enc 3 0 0 0 0', 'enc 3', 1) for l in dl], 'fast', timeout=3600)
+    gi = list(range(0, len(dl), 11 if not thorough else 3))
+    vlib.guard_pass(ctx, exe, [dl[i] for i in gi], [io[i] for i in gi], 'LWE decryption', {})
     for l, o, m, (kind, n, M, mu, key, c, e) in zip(dl, io, mo, meta):
         ctx.count(l[:3000])
         t = o.split()
@@ -118,6 +120,8 @@ def run(ctx):
     rng.shuffle(tjobs); tjobs = tjobs + tjobs[:3]          # and the first ones once more, after all the others
     tio = vlib.run_lines(exe, [j[5] for j in tjobs], timeout=3600)
     tmo = vlib.run_model([j[5].replace(' 0 0 0 0', '', 1) for j in tjobs], 'fast', timeout=3600)
+    gi = list(range(0, len(tjobs), 5 if not thorough else 2))
+    vlib.guard_pass(ctx, exe, [tjobs[i][5] for i in gi], [tio[i] for i in gi], 'TLWE decryption', {})
     for pos, ((kind, k, ki, M, msg, dline), o, m) in enumerate(zip(tjobs, tio, tmo)):
         ctx.count(('tlwe-dec', pos, dline[:3000]))
         if o.startswith('CRASH'): ctx.report('tlwe-decrypt-crash', 'tLweSymDecrypt k=%d Msize=%d died (position %d of the sequence)' % (k, M, pos), {'sequence': [j[5] for j in tjobs[:pos + 1]]}); continue
@@ -192,6 +196,7 @@ def run(ctx):
 def replay(ctx, data):
     if data.get('tool') == 'allocfail': return vlib.allocfail_replay(data)
     exe = vlib.build_harness('enc_drv.cpp', vlib.build_lib('optim'), 'spqlios-fma', 'optim')
+    if data.get('guard'): return vlib.guard_replay(exe, data)
     if 'sequence' in data:
         drv = vlib.build_harness('boot_drv.cpp', vlib.build_lib('optim'), 'spqlios-fma', 'optim') if data['sequence'][0].startswith('tgsw') else exe
         o = vlib.run_lines(drv, data['sequence'], timeout=600)[-1]
